@@ -171,6 +171,14 @@ impl Response {
         RespV { frames: frames_view(self.frames@), error: match self.error { Some(e) => Some(e@), None => None } }
     }
 }
+/// assumed contract of the compiler-derived PartialEq (structural); only the comparison with the field-less variant is interpreted
+uninterp spec fn rs_eq_other(a: &ResponseState, b: &ResponseState) -> bool;
+impl vstd::std_specs::cmp::PartialEqSpecImpl for ResponseState {
+    open spec fn obeys_eq_spec() -> bool { true }
+    closed spec fn eq_spec(&self, other: &ResponseState) -> bool {
+        if *other is Initial { *self is Initial } else if *self is Initial { false } else { rs_eq_other(self, other) }
+    }
+}
 impl ResponseState {
     spec fn view(&self) -> StateV {
         match *self {
